@@ -47,7 +47,7 @@ func init() {
 		New:      func() any { return &C05Case{} },
 		Check:    func(c any) Result { return checkC05(c.(*C05Case)) },
 		Quick:    3000,
-		Thorough: 20000,
+		Thorough: 300000,
 	})
 }
 
